@@ -484,6 +484,7 @@ def convert(v, ft, tt, tgt, trig=None):
 #   ('ilit', text) ('flit', text)    a literal by spelling
 #   ('cast', type, e) ('un', op, e) ('bin', op, l, r) ('cond', c, a, b)
 #   ('sizeof', type) ('alignof', type) ('econst', name, value)
+#   ('raw', text, type, value)       any other constant primary/postfix form whose type and value the caller states
 
 BINOPS = ('*', '/', '%', '+', '-', '<<', '>>', '<', '>', '<=', '>=', '==', '!=', '&', '^', '|', '&&', '||')
 UNOPS = ('+', '-', '~', '!')
@@ -592,6 +593,8 @@ def evaluate(e, tgt, trig=None):
         return Res(t, v)
     if k == 'econst':
         return Res(INT, e[2])
+    if k == 'raw':
+        return Res(e[2], e[3])
     if k == 'sizeof':
         return Res(ULONG, sizeof(e[1]))
     if k == 'alignof':
@@ -690,6 +693,8 @@ def type_of(e, tgt):
         return float_literal(e[1])[0]
     if k == 'econst':
         return INT
+    if k == 'raw':
+        return e[2]
     if k in ('sizeof', 'alignof'):
         return ULONG
     if k == 'cast':
@@ -745,7 +750,7 @@ def render(e, tgt):
         return c_value(e[1], e[2], tgt)
     if k in ('ilit', 'flit'):
         return e[1]
-    if k == 'econst':
+    if k in ('econst', 'raw'):
         return e[1]
     if k == 'sizeof':
         return 'sizeof(%s)' % cname(e[1])
